@@ -4,6 +4,9 @@
 //! Prints `BOUNDED-OK <name> cases=<n>` or `BOUNDED-FAIL <name> input=<..> expected=<..> got=<..>` (first failure per family).
 use actix_router::{Path, Quoter, ResourceDef};
 
+/// the thorough tier explores a larger space (VERIF_HARNESS_TIER is set by tools/native_driver.py)
+fn thorough() -> bool { std::env::var("VERIF_HARNESS_TIER").map(|v| v == "thorough").unwrap_or(false) }
+
 fn all_strings(alpha: &[u8], max_len: usize) -> Vec<Vec<u8>> {
     let mut out = vec![vec![]];
     let mut layer = vec![vec![]];
@@ -147,7 +150,7 @@ fn requote_ref(input: &[u8], protected: &[u8]) -> Option<Vec<u8>> {
 fn check_quoter() -> bool {
     let protected = b"%/+";
     let q = Quoter::new(b"", protected);
-    let inputs = all_strings(b"%2F5b4a", 6);
+    let inputs = all_strings(b"%2F5b4a", if thorough() { 7 } else { 6 });
     let mut n = 0usize;
     for s in &inputs {
         n += 1;
@@ -168,7 +171,7 @@ fn check_quoter() -> bool {
 }
 
 fn main() {
-    let paths: Vec<String> = all_strings(b"/ux", 8).into_iter().map(|v| String::from_utf8(v).unwrap()).collect();
+    let paths: Vec<String> = all_strings(b"/ux", if thorough() { 10 } else { 8 }).into_iter().map(|v| String::from_utf8(v).unwrap()).collect();
     let mut ok = true;
     ok &= check_pattern("dynamic_full", "/u/{id}", false, &[El::Lit("/u/"), El::Seg("id")], &paths);
     ok &= check_pattern("dynamic_prefix", "/u/{id}", true, &[El::Lit("/u/"), El::Seg("id")], &paths);
